@@ -46,6 +46,17 @@ def _torch():
     return torch
 
 
+def real(what, fn, *a, **k):
+    """every call into rl4co goes through the wall-clock guard of vt/props/c19.py (vt/sched_guard.py)"""
+    from vt.props import c19
+    return c19.real(what, fn, *a, **k)
+
+
+def _guard():
+    from vt.props import c19
+    return c19.RealTimeout, c19.nonterminating
+
+
 def make_env(name, kw):
     from rl4co.envs import ENV_REGISTRY
     kw = copy.deepcopy(kw)
@@ -84,6 +95,7 @@ def td_equal(a, b, order=True):
 # ------------------------------------------------------------------------------------------------ npz
 def diff_npz(ctx, spec_fail, work):
     torch = _torch()
+    RealTimeout, nonterminating = _guard()
     from rl4co.data.utils import load_npz_to_tensordict, save_tensordict_to_npz
     d = work / "diff_npz"
     shutil.rmtree(d, ignore_errors=True)
@@ -98,17 +110,24 @@ def diff_npz(ctx, spec_fail, work):
             continue
         for B in ([1, 3] if ctx.tier == "quick" else [1, 2, 5]):
             torch.manual_seed(ctx.rng.randint(0, 2 ** 31 - 1))
-            td = env.generator([B])
+            try:
+                td = real("%s generator" % name, env.generator, [B])
+            except RealTimeout as e:
+                nonterminating(spec_fail, e, {"unit": "npz round trip", "env": name, "env_kwargs": kw, "B": B})
+                break
             for compress in (False, True):
                 path = str(d / ("%s_%d_%d.npz" % (name, B, compress)))
                 n += 1
                 ctx.count("diff_npz_cases")
                 try:
-                    save_tensordict_to_npz(td, path, compress=compress)
-                    back = load_npz_to_tensordict(path)
+                    real("save_tensordict_to_npz", save_tensordict_to_npz, td, path, compress=compress)
+                    back = real("load_npz_to_tensordict", load_npz_to_tensordict, path)
                     why = td_equal(td, back)
                 except Exception as e:  # noqa: BLE001
                     why = "raised %s: %s" % (type(e).__name__, str(e)[:120])
+                except RealTimeout as e:
+                    nonterminating(spec_fail, e, {"unit": "npz round trip", "env": name, "env_kwargs": kw, "B": B, "compress": compress})
+                    continue
                 if why is not None:
                     fails += 1
                     spec_fail.append(("npz: save_tensordict_to_npz -> load_npz_to_tensordict changes the TensorDict", {
@@ -138,7 +157,7 @@ def compare_rollout(ctx, envs, td, rng, max_steps=250):
     seed = rng.randint(0, 2 ** 31 - 1)
     for e in envs:
         torch.manual_seed(seed)          # some resets draw (improvement envs: a random initial solution)
-        states.append(e.reset(td.clone()))
+        states.append(real("env.reset", e.reset, td.clone()))
     for i in range(1, len(envs)):
         why = td_equal(states[0], states[i], order=False)
         if why:
@@ -153,7 +172,7 @@ def compare_rollout(ctx, envs, td, rng, max_steps=250):
         acts.append(a)
         for i, e in enumerate(envs):
             states[i].set("action", torch.tensor(a))
-            states[i] = e.step(states[i])["next"]
+            states[i] = real("env.step", e.step, states[i])["next"]
         for i in range(1, len(envs)):
             for key in ("action_mask", "done", "reward"):
                 if key in states[0].keys() and not torch.equal(states[0][key], states[i][key]):
@@ -161,11 +180,11 @@ def compare_rollout(ctx, envs, td, rng, max_steps=250):
     if acts and bool(states[0]["done"].all()):
         A = torch.tensor(acts).T
         try:
-            r0 = envs[0].get_reward(states[0], A)
+            r0 = real("env.get_reward", envs[0].get_reward, states[0], A)
         except Exception:  # noqa: BLE001 -- a random episode the env's own checker refuses: not our concern here
             return None, acts
         for i in range(1, len(envs)):
-            ri = envs[i].get_reward(states[i], A)
+            ri = real("env.get_reward", envs[i].get_reward, states[i], A)
             if not torch.equal(r0, ri):
                 return "final reward differs (copy %d): %s vs %s" % (i, r0.tolist(), ri.tolist()), acts
     return None, acts
@@ -173,6 +192,7 @@ def compare_rollout(ctx, envs, td, rng, max_steps=250):
 
 def diff_copy(ctx, spec_fail, work):
     torch = _torch()
+    RealTimeout, nonterminating = _guard()
     n = fails = steps = 0
     per_env = {}
     for name, kw in ENV_SPECS:
@@ -221,11 +241,16 @@ def diff_copy(ctx, spec_fail, work):
         # generator stream
         seed = ctx.rng.randint(0, 2 ** 31 - 1)
         torch.manual_seed(seed)
-        ref = env.generator([2])
+        try:
+            ref = real("%s generator" % name, env.generator, [2])
+        except RealTimeout as e:
+            nonterminating(spec_fail, e, {"unit": "env deepcopy/pickle", "env": name, "env_kwargs": kw, "torch_seed": seed})
+            per_env[name] = "generator does not terminate"
+            continue
         for how, c in clones:
             n += 1
             torch.manual_seed(seed)
-            why = td_equal(ref, c.generator([2]))
+            why = td_equal(ref, real("%s generator" % name, c.generator, [2]))
             if why:
                 fails += 1
                 spec_fail.append(("env copy: the copied environment's generator produces other instances", {
@@ -234,13 +259,20 @@ def diff_copy(ctx, spec_fail, work):
         for rep in range(2 if ctx.tier == "quick" else 6):
             seed = ctx.rng.randint(0, 2 ** 31 - 1)
             torch.manual_seed(seed)
-            td = env.generator([3])
+            try:
+                td = real("%s generator" % name, env.generator, [3])
+            except RealTimeout as e:
+                nonterminating(spec_fail, e, {"unit": "env deepcopy/pickle", "env": name, "env_kwargs": kw, "torch_seed": seed})
+                break
             n += 1
             ctx.count("diff_copy_rollouts")
             try:
                 why, acts = compare_rollout(ctx, [env] + [c for _, c in clones], td, ctx.rng)
             except Exception as e:  # noqa: BLE001
                 why, acts = "raised %s: %s" % (type(e).__name__, str(e)[:160]), None
+            except RealTimeout as e:
+                nonterminating(spec_fail, e, {"unit": "env deepcopy/pickle", "env": name, "env_kwargs": kw, "torch_seed": seed})
+                break
             steps += len(acts or [])
             if why:
                 fails += 1
@@ -355,6 +387,7 @@ def _plain(v):
 
 
 def diff_checkpoint(ctx, spec_fail, work):
+    RealTimeout, nonterminating = _guard()
     d = work / "diff_ckpt"
     shutil.rmtree(d, ignore_errors=True)
     os.makedirs(d)
@@ -372,7 +405,10 @@ def diff_checkpoint(ctx, spec_fail, work):
         seed = ctx.rng.randint(0, 2 ** 31 - 1)
         ctx.count("diff_checkpoint_cases")
         try:
-            out = checkpoint_case(env_name, bl, seed, d, epochs=1 if ctx.tier == "quick" else 2)
+            out = real("checkpoint save/restore", checkpoint_case, env_name, bl, seed, d, epochs=1 if ctx.tier == "quick" else 2)
+        except RealTimeout as e:
+            nonterminating(spec_fail, e, {"unit": "checkpoint", "env": env_name, "baseline": bl, "seed": seed})
+            continue
         except Exception as e:  # noqa: BLE001
             fails += 1
             spec_fail.append(("reinforce/checkpoint: save / restore raises", {
@@ -426,6 +462,7 @@ def canon_rows(td):
 
 def diff_files(ctx, spec_fail, work):
     torch = _torch()
+    RealTimeout, nonterminating = _guard()
     from rl4co.envs import FJSPEnv, JSSPEnv
     from rl4co.envs.scheduling.fjsp.parser import write
     from vt.props.c19 import g_of_td_row, jssp_words, render
@@ -440,36 +477,65 @@ def diff_files(ctx, spec_fail, work):
         torch.manual_seed(seed)
         gp = dict(num_jobs=nj, num_machines=nm, min_ops_per_job=lo, max_ops_per_job=hi) if cls is FJSPEnv else dict(num_jobs=nj, num_machines=nm)
         env = cls(generator_params=gp)
-        td = env.generator([B])
+        info = {"unit": "text files through the file generator", "env": env.name, "generator_params": gp, "B": B, "torch_seed": seed}
         n += 1
         ctx.count("diff_files_cases")
-        info = {"unit": "text files through the file generator", "env": env.name, "generator_params": gp, "B": B, "torch_seed": seed}
+        try:
+            one_files_case(ctx, spec_fail, cls, env, d, B, nj, nm, info, orders)
+        except RealTimeout as e:
+            nonterminating(spec_fail, e, info)
+        except _FilesFail:
+            fails += 1
+    ctx.units["TEST FJSP/JSSP text files through FJSPFileGenerator / JSSPFileGenerator / env.load_data"] = {
+        "kind": "differential-test", "cases": n, "failures": fails, "observed_file_orders": orders,
+        "compared": "instances as multisets up to padding (os.listdir order is unspecified and is NOT the write order in general); "
+                    "then, on matched pairs, action_mask at every step of a random admitted sequence and the final reward. "
+                    "start/end_op_per_job come back as float32 instead of int64 (recorded, harmless for masks and rewards)"}
+    if any(o["position_of_written_row_in_read_batch"] != sorted(o["position_of_written_row_in_read_batch"]) for o in orders):
+        ctx.notes.append("TESTING: FJSPFileGenerator/JSSPFileGenerator return the instances in os.listdir order, which differed from "
+                         "the order they were written in on this run (instances compared as multisets)")
+
+
+class _FilesFail(Exception):
+    pass
+
+
+def one_files_case(ctx, spec_fail, cls, env, d, B, nj, nm, info, orders):
+    torch = _torch()
+    from rl4co.envs import FJSPEnv
+    from rl4co.envs.scheduling.fjsp.parser import write
+    from vt.props.c19 import g_of_td_row, jssp_words, render, MAX_NUMEL
+    fails = 0
+    if True:
+        td = real("%s generator" % env.name, env.generator, [B])
         try:
             if cls is FJSPEnv:
-                write(str(d), env.reset(td.clone()))
+                real("fjsp.parser.write", write, str(d), real("env.reset", env.reset, td.clone()))
             else:
                 for b in range(B):
                     with open(os.path.join(str(d), "%04d_%dj_%dm.txt" % (b + 1, nj, nm)), "w") as fh:
                         fh.write(render(jssp_words(g_of_td_row(td, b))))
-            env2 = cls(generator_params={"file_path": str(d)})
+            env2 = real(cls.__name__ + "(file_path)", lambda: cls(generator_params={"file_path": str(d)}))
             back = env2.generator.td
-            loaded = env2.load_data(str(d), batch_size=[B])
+            loaded = real("env.load_data", env2.load_data, str(d), batch_size=[B])
         except Exception as e:  # noqa: BLE001
-            fails += 1
             spec_fail.append(("files: write -> file generator raises", dict(info, error="%s: %s" % (type(e).__name__, str(e)[:200]))))
-            continue
+            raise _FilesFail()
+        if back["proc_times"].numel() > MAX_NUMEL or loaded["proc_times"].numel() > MAX_NUMEL or \
+                tuple(back["proc_times"].shape[:2]) != (B, nm):
+            spec_fail.append(("files: instances read by the file generator are not the instances written (as multisets, up to padding)",
+                              dict(info, read_proc_times_shape=list(back["proc_times"].shape), expected_leading_shape=[B, nm])))
+            raise _FilesFail()
         a, b_ = canon_rows(td), canon_rows(back)
         if sorted(a) != sorted(b_) or sorted(canon_rows(loaded)) != sorted(a):
-            fails += 1
             spec_fail.append(("files: instances read by the file generator are not the instances written (as multisets, up to padding)",
                               dict(info, written=[list(map(list, r[:2])) for r in a], read=[list(map(list, r[:2])) for r in b_])))
-            continue
+            raise _FilesFail()
         perm = [b_.index(r) for r in a]
         orders.append({"env": env.name, "files": sorted(os.listdir(d)), "listdir_order": os.listdir(d), "position_of_written_row_in_read_batch": perm})
         # matched pairs compute the same thing: masks along random admitted sequences, final reward
         idx = torch.tensor(perm)
-        why, acts = compare_rollout(ctx, [env, env2], td, ctx.rng) if perm == list(range(B)) and td_equal(td, back, order=False) is None else (None, None)
-        s0, s1 = env.reset(td.clone()), env2.reset(back[idx].clone())
+        s0, s1 = real("env.reset", env.reset, td.clone()), real("env.reset", env2.reset, back[idx].clone())
         ok, steps, acts = True, 0, []
         while not bool(s0["done"].all()) and steps < 300:
             if not torch.equal(s0["action_mask"], s1["action_mask"]):
@@ -479,22 +545,14 @@ def diff_files(ctx, spec_fail, work):
             acts.append(aa)
             s0.set("action", torch.tensor(aa))
             s1.set("action", torch.tensor(aa))
-            s0, s1 = env.step(s0)["next"], env2.step(s1)["next"]
+            s0, s1 = real("env.step", env.step, s0)["next"], real("env.step", env2.step, s1)["next"]
             steps += 1
         if ok and bool(s0["done"].all()):
             ok = torch.equal(s0["reward"], s1["reward"]) and torch.equal(s0["done"], s1["done"])
         if not ok:
-            fails += 1
             spec_fail.append(("files: an instance read back from its text file behaves differently (mask / reward)",
                               dict(info, actions=acts, step=steps)))
-    ctx.units["TEST FJSP/JSSP text files through FJSPFileGenerator / JSSPFileGenerator / env.load_data"] = {
-        "kind": "differential-test", "cases": n, "failures": fails, "observed_file_orders": orders,
-        "compared": "instances as multisets up to padding (os.listdir order is unspecified and is NOT the write order in general); "
-                    "then, on matched pairs, action_mask at every step of a random admitted sequence and the final reward. "
-                    "start/end_op_per_job come back as float32 instead of int64 (recorded, harmless for masks and rewards)"}
-    if any(o["position_of_written_row_in_read_batch"] != sorted(o["position_of_written_row_in_read_batch"]) for o in orders):
-        ctx.notes.append("TESTING: FJSPFileGenerator/JSSPFileGenerator return the instances in os.listdir order, which differed from "
-                         "the order they were written in on this run (instances compared as multisets)")
+            raise _FilesFail()
 
 
 def run_all(ctx, spec_fail, work):
